@@ -888,10 +888,19 @@ func (f *TF) IAbs(a *Term) *Term {
 	if a.isConst() {
 		return f.IntB(new(big.Int).Abs(a.c))
 	}
-	if lo, _ := irange(a); lo != nil && lo.Sign() >= 0 {
+	lo, hi := irange(a)
+	if lo != nil && lo.Sign() >= 0 {
 		return a
 	}
-	return f.mk(OIAbs, sortInt, a)
+	t := f.mk(OIAbs, sortInt, a)
+	if t.lo == nil && lo != nil {
+		m := new(big.Int).Abs(lo)
+		if h := new(big.Int).Abs(hi); h.Cmp(m) > 0 {
+			m = h
+		}
+		t.lo, t.hi = big.NewInt(0), m
+	}
+	return t
 }
 
 func (f *TF) ICmp(op Op, a, b *Term) *Term {
